@@ -15,12 +15,14 @@ pub struct StopScenario {
 	pub drop_handles: bool,
 	pub slow_steps: usize,
 	pub mask: fn(&str) -> bool,
+	/// SRV-TCP: the real `Server::start` (accept loop) over loopback sockets
+	pub tcp: bool,
 }
 
 impl Scenario for StopScenario {
 	type State = SrvState;
 	fn name(&self) -> String {
-		format!("srv_mem/stop:{}", self.name)
+		format!("{}/stop:{}", if self.tcp { "srv_tcp" } else { "srv_mem" }, self.name)
 	}
 	fn config(&self) -> Value {
 		json!({"connections": format!("{:?}", self.conns), "handler_scripts": format!("{:?}", self.scripts), "stop_twice": self.stop_twice, "drop_handles_instead_of_stop": self.drop_handles, "slow_handler_steps": self.slow_steps})
@@ -31,8 +33,15 @@ impl Scenario for StopScenario {
 	fn max_steps(&self) -> usize {
 		300
 	}
+	fn needs_io(&self) -> bool {
+		self.tcp
+	}
+	fn tolerate_divergence(&self) -> bool {
+		self.tcp
+	}
 	fn setup(&self) -> SrvState {
 		smem::setup(&SrvCfg {
+			tcp: self.tcp,
 			conns: self.conns.clone(),
 			scripts: self.scripts.clone(),
 			stop: !self.drop_handles,
@@ -44,6 +53,11 @@ impl Scenario for StopScenario {
 	}
 	fn judge(&self, st: SrvState, trace: &[String], panics: &[String], status: Status) -> Verdict {
 		let mut v = monitor(trace, &self.conns);
+		if self.tcp {
+			// over kernel sockets the peer's read may be observed after stopped() although the bytes were handed to
+			// the socket before; only the clauses that do not depend on that order are judged on this leg
+			v.retain(|(sig, _)| !sig.starts_with("answer-after-stopped") && !sig.starts_with("transport-write-after-stopped"));
+		}
 		if status != Status::Quiescent {
 			v.push((format!("machinery:{status:?}"), format!("{status:?}")));
 		}
@@ -57,7 +71,7 @@ impl Scenario for StopScenario {
 				v.push(("stopped-never-resolves".into(), "stop was requested but stopped() has not resolved at quiescence (some connection task never finishes)".into()));
 			}
 			for (c, d) in done.iter().enumerate() {
-				if !d {
+				if !d && !self.tcp {
 					v.push(("connection-task-alive-after-stop".into(), format!("connection {c}: the serve future is still running at quiescence after stop")));
 				}
 			}
@@ -141,7 +155,7 @@ pub fn scenarios(thorough: bool) -> Vec<StopScenario> {
 	let http = |a: Vec<HttpAct>| Conn::Http(a);
 	let mut v = Vec::new();
 	let mut add = |name: &str, conns: Vec<Conn>, scripts: Vec<Vec<HStep>>, twice: bool, drop_handles: bool, steps: usize, mask: fn(&str) -> bool| {
-		v.push(StopScenario { name: name.to_string(), conns, scripts, stop_twice: twice, drop_handles, slow_steps: steps, mask });
+		v.push(StopScenario { name: name.to_string(), conns, scripts, stop_twice: twice, drop_handles, slow_steps: steps, mask, tcp: false });
 	};
 	add("no-connections", vec![], vec![], false, false, 1, mask_harness_only);
 	add("no-connections-stop-twice", vec![], vec![], true, false, 1, mask_harness_only);
@@ -163,6 +177,20 @@ pub fn scenarios(thorough: bool) -> Vec<StopScenario> {
 		add("ws-two-calls-server-points", vec![ws(vec![PeerAct::SlowCall, PeerAct::SlowCall])], vec![], false, false, 1, mask_all_server);
 		add("two-ws-one-http", vec![ws(vec![PeerAct::SlowCall]), ws(vec![PeerAct::Subscribe(0)]), http(vec![HttpAct::SlowCall])], vec![vec![Accept, Send, Send]], true, false, 1, mask_harness_only);
 	}
+	// SRV-TCP legs: the same histories against Server::start over loopback sockets (accept loop + process_connection)
+	let mut tcp = vec![
+		("ws-slow-call", vec![Conn::Ws(vec![PeerAct::SlowCall])], false, false),
+		("http-slow-call", vec![Conn::Http(vec![HttpAct::SlowCall])], false, false),
+		("ws-and-http", vec![Conn::Ws(vec![PeerAct::SlowCall]), Conn::Http(vec![HttpAct::SlowCall])], false, false),
+		("no-connections-stop-twice", vec![], true, false),
+		("ws-slow-call-drop-handles", vec![Conn::Ws(vec![PeerAct::SlowCall])], false, true),
+	];
+	if thorough {
+		tcp.push(("ws-two-calls-http-keepalive", vec![Conn::Ws(vec![PeerAct::SlowCall, PeerAct::Call]), Conn::Http(vec![HttpAct::SlowCall, HttpAct::Call])], true, false));
+	}
+	for (name, conns, twice, drop_handles) in tcp {
+		v.push(StopScenario { name: name.to_string(), conns, scripts: vec![], stop_twice: twice, drop_handles, slow_steps: 1, mask: mask_harness_only, tcp: true });
+	}
 	v
 }
 
@@ -172,8 +200,11 @@ pub fn check(rep: &Reporter) {
 		"0–3 connections (WebSocket and keep-alive HTTP/1.1, raw peers over in-memory duplexes) with calls to a handler that parks at scheduling points, optional open subscription; stop() (or dropping every ServerHandle) is its own scheduling point and therefore lands at every position: before the call bytes are sent, sent but unread, handler started, handler finished but reply unwritten, reply written; second stop(), peer close/drop racing the stop; per scenario also the library's cfg points in the WebSocket tasks. Monitor: every call whose handler started and whose peer stayed is answered, the handler ran to completion, no transport write and no handler start after stopped() resolved, stopped() resolves and every serve future ends.",
 	);
 	rep.assume("'handed to the transport' is observed as a write on the server half of the duplex (logged by a pass-through wrapper)");
+	rep.assume("SRV-TCP legs (Server::start over loopback sockets): quiescence = the runtime polled nothing but the driver for 4 consecutive rounds; the order 'answer read by the peer' vs 'stopped() resolved' is not judged there; every schedule is re-executed and a divergence is counted as inconclusive");
 	for s in scenarios(thorough) {
-		sched::explore_auto(&s, rep, if thorough { 400_000 } else { 15_000 }, if thorough { 3 } else { 2 }, if thorough { 10 } else { 50 }, Duration::from_secs(if thorough { 300 } else { 6 }));
+		// on the kernel-socket legs every schedule is executed twice and compared
+		let recheck = if s.tcp { 1 } else if thorough { 10 } else { 50 };
+		sched::explore_auto(&s, rep, if thorough { 400_000 } else { 15_000 }, if thorough { 3 } else { 2 }, recheck, Duration::from_secs(if thorough { 300 } else { 6 }));
 	}
 }
 
